@@ -805,6 +805,26 @@ theorem reachable_access_paths (d d' : LabeledData ι κ) (hinv : Inv d) (h : Re
   obtain ⟨h1, h2, h3⟩ := element_eq_iter_eq_batch d'.inputs hne
   exact ⟨h1, h2, h3, d'.inputs.sum_partitioning⟩
 
+/-- **element_eq_iter_eq_batch for labelled datasets**: for every well-formed labelled dataset with non-empty
+batches, `elements()`, `element(i)`, reverse iteration and batch-wise reading all yield the (input, label) pairs -/
+theorem labeled_element_eq_iter_eq_batch (d : LabeledData ι κ) (hinv : Inv d) :
+    d.container.elementsFwd = (pairs d).map some ∧
+    d.container.elementsIdx = (pairs d).map some ∧
+    d.container.elementsRev.reverse = (pairs d).map some ∧
+    d.flat = pairs d :=
+  let ⟨h1, h2, h3⟩ := labeled_access_paths d hinv.1 hinv.2
+  ⟨h1, h2, h3, flat_eq_pairs d hinv.1⟩
+
+/-- … in every state reachable by a history of structural operations -/
+theorem reachable_labeled_access_paths (d d' : LabeledData ι κ) (hinv : Inv d) (h : Reach d d') :
+    d'.container.elementsFwd = (pairs d').map some ∧
+    d'.container.elementsIdx = (pairs d').map some ∧
+    d'.container.elementsRev.reverse = (pairs d').map some ∧
+    d'.flat = pairs d' ∧ (pairs d').Perm (pairs d) := by
+  obtain ⟨hinv', hp⟩ := ops_preserve_multiset d d' hinv h
+  obtain ⟨h1, h2, h3, h4⟩ := labeled_element_eq_iter_eq_batch d' hinv'
+  exact ⟨h1, h2, h3, h4, hp⟩
+
 /-! ## F. class-wise repartitioning -/
 
 /-- **repartitionByClass**: whenever the call succeeds (for any label multiset — gaps included — and any
